@@ -167,6 +167,16 @@ func gen(tier string) []proto.Item {
 			if tier == "thorough" {
 				step = 5
 			}
+			if vi.Parallel {
+				// a long range, cancelled while most of its probes are still to be sent: the sender notices as well
+				for _, at := range []int{5, 25, 105, 255} {
+					s := proto.Scn{Variant: v, First: 1, Last: 30, Dest: 0, TimeoutMs: 300, DelayMs: 10, CancelAtMs: at, SilentElsewhere: true, MaxSteps: 40000, Hops: map[int]proto.HopSpec{}}
+					for t := 1; t <= 30; t++ {
+						s.Hops[t] = proto.HopSpec{Silent: true}
+					}
+					items = append(items, proto.Item{Scn: s, Class: v + "/cancel-grid/thirty-probes", Note: map[string]string{"cancel": fmt.Sprint(at)}})
+				}
+			}
 			for at := step; at <= 360; at += step {
 				s := proto.Scn{Variant: v, First: 1, Last: 4, Dest: 0, TimeoutMs: 300, DelayMs: 10, CancelAtMs: at, Hops: map[int]proto.HopSpec{1: {Silent: true}, 2: {Silent: true}, 3: {Silent: true}, 4: {Silent: true}}}
 				items = append(items, proto.Item{Scn: s, Class: v + "/cancel-grid", Note: map[string]string{"cancel": fmt.Sprint(at)}})
@@ -191,7 +201,7 @@ func check(it *proto.Item, r *proto.Result) []proto.Issue {
 		var at int
 		fmt.Sscan(c, &at)
 		cancelNs := int64(at) * 1e6
-		total := int64(sc.TimeoutMs+4*sc.DelayMs) * 1e6
+		total := int64(sc.TimeoutMs+(sc.Last-sc.First+1)*sc.DelayMs) * 1e6
 		if proto.Info(sc.Variant).Kind == "sack" {
 			total += 0 // the handshake completes at once here
 		}
